@@ -22,6 +22,26 @@ import (
 type c06Ret struct {
 	f   *c01Fn
 	ret *ast.ReturnStmt
+	// outer maps an expression read in f to the expression (and function) it stands for when it is a parameter of a
+	// function the walk entered through a forwarded call (`return g(blob.GetX(), ...)`): the argument of that call
+	outer func(e ast.Expr) (*c01Fn, ast.Expr)
+}
+
+// c06OuterOf builds the resolver for callee g entered from f (itself resolved by up) through call.
+func c06OuterOf(g *c01Fn, call *ast.CallExpr, f *c01Fn, up func(ast.Expr) (*c01Fn, ast.Expr)) func(ast.Expr) (*c01Fn, ast.Expr) {
+	return func(e ast.Expr) (*c01Fn, ast.Expr) {
+		info := g.info
+		x := c01StripConv(info, c01Expand(info, g.body, c01StripConv(info, e)))
+		if id, ok := x.(*ast.Ident); ok {
+			if idx := c01ParamIndex(info, g.fi, objOf(info, id)); idx >= 0 && idx < len(call.Args) && len(c01Defs(info, g.body, objOf(info, id))) == 0 {
+				if up != nil {
+					return up(call.Args[idx])
+				}
+				return f, c01StripConv(info, c01Expand(info, f.body, c01StripConv(info, call.Args[idx])))
+			}
+		}
+		return g, e
+	}
 }
 
 // c06BlobField names the data field of the generated Blob that expression e (read in f) denotes:
@@ -73,7 +93,16 @@ func c06BlobAtom(f *c01Fn, present string) func(ast.Expr) c01Tri {
 
 // c06ReturnsUnder lists the returns reachable in f for the abstract blob; forwarded calls are followed.
 func c06ReturnsUnder(p *core.Program, f *c01Fn, present string, depth int) []c06Ret {
+	return c06ReturnsUnderCtx(p, f, present, depth, nil)
+}
+
+func c06ReturnsUnderCtx(p *core.Program, f *c01Fn, present string, depth int, outer func(ast.Expr) (*c01Fn, ast.Expr)) []c06Ret {
 	var out []c06Ret
+	if outer == nil {
+		outer = func(e ast.Expr) (*c01Fn, ast.Expr) {
+			return f, c01StripConv(f.info, c01Expand(f.info, f.body, c01StripConv(f.info, e)))
+		}
+	}
 	atom := c06BlobAtom(f, present)
 	seen := map[*cfg.Block]bool{f.g.Blocks[0]: true}
 	work := []*cfg.Block{f.g.Blocks[0]}
@@ -88,12 +117,13 @@ func c06ReturnsUnder(p *core.Program, f *c01Fn, present string, depth int) []c06
 			if len(ret.Results) == 1 && depth < 3 {
 				if call, isCall := ast.Unparen(ret.Results[0]).(*ast.CallExpr); isCall {
 					if tf := c01Callee(f.pk, call); tf != nil {
-						out = append(out, c06ReturnsUnder(p, c01FnOf(p, tf), present, depth+1)...)
+						g := c01FnOf(p, tf)
+						out = append(out, c06ReturnsUnderCtx(p, g, present, depth+1, c06OuterOf(g, call, f, outer))...)
 						continue
 					}
 				}
 			}
-			out = append(out, c06Ret{f, ret})
+			out = append(out, c06Ret{f, ret, outer})
 		}
 		cond := f.condOf(b)
 		for si, nb := range b.Succs {
@@ -195,6 +225,7 @@ func c06E4(r *core.R) {
 		f     *c01Fn
 		cont  ast.Expr
 		drain *ast.CallExpr
+		outer func(ast.Expr) (*c01Fn, ast.Expr)
 	}
 	var cmps []cmp
 	for _, rt := range c06ReturnsUnder(r.P, f0, "ZlibData", 0) {
@@ -211,12 +242,12 @@ func c06E4(r *core.R) {
 				continue
 			}
 			for _, pr := range [][2]ast.Expr{{a, b}, {b, a}} {
-				if !c06IsRawSize(f, pr[1]) {
+				if f2, e2 := rt.outer(pr[1]); !c06IsRawSize(f2, e2) {
 					continue
 				}
 				if cont, dr := c06LenOf(f, pr[0]); cont != nil || dr != nil {
 					proved = true
-					cmps = append(cmps, cmp{f, cont, dr})
+					cmps = append(cmps, cmp{f, cont, dr, rt.outer})
 				}
 			}
 		}
@@ -233,13 +264,13 @@ func c06E4(r *core.R) {
 	// (c) the compared length is that of the whole decompressed stream
 	cw := "raw_size whole-stream@" + fi.Name()
 	for _, cp := range cmps {
-		c06WholeStreamCheck(r, cw, cp.f, cp.cont, cp.drain)
+		c06WholeStreamCheck(r, cw, cp.f, cp.cont, cp.drain, cp.outer)
 	}
 }
 
 // c06WholeStreamCheck: the call that fills the container whose length is compared with raw_size drains the
 // decompressor itself (or a wrapper that cannot cut the stream at or below raw_size).
-func c06WholeStreamCheck(r *core.R, cw string, f *c01Fn, lenContainer ast.Expr, drainFromLen *ast.CallExpr) {
+func c06WholeStreamCheck(r *core.R, cw string, f *c01Fn, lenContainer ast.Expr, drainFromLen *ast.CallExpr, outer func(ast.Expr) (*c01Fn, ast.Expr)) {
 	info := f.info
 	fs := r.P.Fset
 	var drains []*ast.CallExpr
@@ -278,7 +309,10 @@ func c06WholeStreamCheck(r *core.R, cw string, f *c01Fn, lenContainer ast.Expr, 
 		r.Unknown(cw, f.fi.Decl.Pos(), "the call that fills `%s` from the decompressor was not found (ReadFrom / io.Copy / io.ReadAll)", src(fs, lenContainer))
 		return
 	}
-	isRaw := func(e ast.Expr) bool { return c06IsRawSize(f, e) }
+	isRaw := func(e ast.Expr) bool {
+		f2, e2 := outer(e)
+		return c06IsRawSize(f2, e2)
+	}
 	for _, dr := range drains {
 		kind := c06DrainKind(info, dr)
 		var rd ast.Expr
@@ -294,7 +328,7 @@ func c06WholeStreamCheck(r *core.R, cw string, f *c01Fn, lenContainer ast.Expr, 
 			r.Bad(cw, dr.Pos(), "`%s` copies a limited number of bytes: the length compared with raw_size is not that of the whole decompressed stream, so data that inflates beyond raw_size is cut silently", src(fs, dr))
 			continue
 		}
-		why, status := c06WholeStream(info, f, rd, isRaw, 0)
+		why, status := c06WholeStream(info, f, rd, isRaw, 0, outer)
 		switch status {
 		case "ok":
 			r.OK(cw, dr.Pos(), "`%s` drains %s: the length compared with raw_size is that of the whole decompressed stream", src(fs, dr), why)
